@@ -25,6 +25,22 @@ Resample}.lean, run through Drivers/C19.lean) and the code in /repo's working tr
       (bit-equal in the linear branch), psd.get_freq_oct (exact / approximate, three trims, anchors),
       dsp.resample FIR taps and output incl. constants and integer / float32 / list storage of the data.
 
+  exact, added with the complete fixtime model (Model/FixtimeFull.lean, FixtimeSr.lean, FixtimeDespike.lean)
+    * dsp.fixtime with EVERY option (sr numeric or 'auto', dropval, deldrops, delouttimes, delspikes = True | dict with
+      method despike_diff / despike / simple, base, hold_previous_value, previous_value_tol, getall): returned times,
+      returned samples (as positions in the sorted record), fixinfo.alldrops.{dropouts, outtimes, spikes, alldrops},
+      fixinfo.sr_stats, fixinfo.tp, despike_info.niter, the two _check_dt_size warnings   vs fixtimeFull
+    * dsp._sr_calcs (what sr='auto' chooses), dsp._del_loners                               vs srCalcs, delLoners
+    * dsp.exclusive_sgfilter, dsp.despike, dsp.despike_diff called directly: s.pv, s.niter, s.x = x[~pv]
+                                                                                             vs sgFilter, despike, despikeDiff
+      (a decision within 1e-9 of its threshold is skipped, except in the stream of DESIGNED ties: flat integer background,
+      window of 2^k + 1 points, integer threshold_value - every statistic of the code is exact there and `>` vs `>=` shows)
+    * psd.psdmod's last step (row maxima of the returned map, bit-equal), dsp.resample's storage types (dtype of the mean,
+      of the result and of the FIR taps for int16/int32/int64/uint8/bool/list/float32/float64 data)
+  translator harness/translate/c19_consts.py (Python `ast`, no execution): every literal, default argument and comparison
+    operator of the anchored routines the models depend on -> Generated/C19Consts.lean, with `decide` obligations in
+    Props/C19Consts.lean (a changed constant / operator stops the Lean build).
+
 The model-free oracle (`search`) restates the property on the public API only.
 """
 import ast
@@ -41,7 +57,8 @@ import textwrap
 from runner import Infra, TieBroken
 
 ID = "C19"
-LEAN_MODULES = ["PyYetiVerif.Props.C19", "PyYetiVerif.Audit.C19"]
+LEAN_MODULES = ["PyYetiVerif.Props.C19", "PyYetiVerif.Props.C19Fixtime", "PyYetiVerif.Props.C19Despike", "PyYetiVerif.Props.C19Oct",
+                "PyYetiVerif.Props.C19Psd", "PyYetiVerif.Props.C19Resample", "PyYetiVerif.Props.C19Consts", "PyYetiVerif.Audit.C19"]
 AUDIT_FILE = "PyYetiVerif/Audit/C19.lean"
 THEOREMS = ["PyYetiVerif.C19." + n for n in (
     "searchsorted_left_spec searchsorted_right_spec previous_is_last_le previous_zero_if_none "
@@ -56,6 +73,24 @@ THEOREMS = ["PyYetiVerif.C19." + n for n in (
     "constants_reproduced resample_kept_sample_times tnew_round_half_even tnew_uniform "
     "edges_partition_linear edges_partition_linear_tolerance edges_partition_log edges_dispatch "
     "edges_extendends_rule freq_oct_bands freq_oct_ratio alldrops_indices_are_full_record_positions "
+    # Props/C19Fixtime.lean
+    "auto_sr_def auto_sr_uniform_8hz_gives_10 outtimes_removed_exactly outtimes_exactly_three_sigma_stays dropouts_marked "
+    "mk_initial_tnew_total mk_initial_tnew_needs_two_samples alignment_shift_bound "
+    "alignment_shift_mean_branch_can_exceed_half_step base_shift_hits_base del_loners_only_adds del_loners_examples "
+    "fixtime_idempotent uniform_has_no_outlier_times fixtime_idempotent_inhabited "
+    # Props/C19Despike.lean
+    "despike_decision_rule despike_threshold_is_strict despike_removes_only_flagged despike_fixed_point "
+    "despike_diff_fixed_point despike_idempotent_partial "
+    # Props/C19Oct.lean
+    "freq_oct_trim_rules freq_oct_count freq_oct_untrimmed_scale freq_oct_exact_vs_preferred "
+    # Props/C19Psd.lean
+    "rescale_conserves_area rescale_constant_psd_unchanged interp_log_is_loglog_line psdmod_ge_psd_average "
+    # Props/C19Resample.lean
+    "resample_gcd_reduction resample_decimation_every_qth resample_dc_gain resample_storage_types "
+    "resample_integer_buffer_counterexample "
+    # Props/C19Consts.lean (obligations on Generated/C19Consts.lean)
+    "constants_literals_match_source constants_defaults_match_source constants_operators_match_source "
+    "constants_resample_buffers_are_float64 constants_used_by_models "
 ).split()]
 TRUSTED = [
     "correspondence harness harness/props/c19.py (exact comparison on dyadic times; numeric 1e-9*scale elsewhere)",
@@ -70,6 +105,13 @@ TRUSTED = [
     "plain Python (they cannot be called from outside rescale); rescale as a whole is compared numerically as well",
     "which samples are drop-outs (nan / inf / within 1 % of dropval) is an input of the bookkeeping model, computed by the harness",
     "IEEE rounding of the log/exp/sqrt/sin/pow/log2 kernels; float results are compared numerically, never proved",
+    "translator harness/translate/c19_consts.py (Python ast; structural patterns with literal / operator capture)",
+    "pandas value_counts(): most frequent value first, equally frequent values in order of first appearance - modelled "
+    "(modeFirst), re-measured every run through the sr-calcs stream",
+    "the despiker's flags enter the fixtime model from the Lean despike models (Model/FixtimeDespike.lean), which decide "
+    "`delta > fmax(sigma*std, min_limit)` on squares (exact over the rationals; despike_decision_rule); the code's float "
+    "statistics agree except within rounding of a tie",
+    "scipy.signal.welch / dsp.waterfall inside psdmod: library kernels, the map they produce is an input of the model",
 ]
 RULE = (
     "a case is one call of a routine compared with the model: (told, tnew) pairs on dyadic grids with ties, "
@@ -79,7 +121,12 @@ RULE = (
     "points, length mismatch, half-step span); (n, p, q, pts, axis, storage dtype) for resample; specifications with 2-7 break "
     "points and slopes including exactly -1, the 1e-8 tolerance band and the former 1e-5 band; (P, F, freq|n_oct, extendends) "
     "for rescale over linear/log/tolerance-linear/nearly-linear scales (one step off by 1e-13 ... 1e-3 relative); centre "
-    "scales for the band edges; (n, frange, exact, trim, anchor) for get_freq_oct. non-trivial = the case reaches a "
+    "scales for the band edges; (n, frange, exact, trim, anchor) for get_freq_oct; fixtime records x every option "
+    "(sr numeric dyadic / not dyadic / 'auto', base inside / outside / far away, dropval default / given / 0 / nan with samples "
+    "0.5 % and 2 % off, delspikes False / True / dict(method, n, sigma, maxiter, threshold_value | threshold_sigma, "
+    "exclude_point) on flat-with-spikes and noisy data); time-step vectors for _sr_calcs (dyadic, decimal, slow rates, "
+    "equal times); flag vectors x window for _del_loners; (x, n, sigma, maxiter, thresholds, exclude_point) for the "
+    "despikers incl. designed exact ties; a record with a time exactly 3 sigma from the mean. non-trivial = the case reaches a "
     "non-default branch (a tie, an out-of-range time, a clipped end band, the s=-1 branch, p>1 and q>1, a shifted or "
     "unaligned time base, ...); distinct by the canonical input"
 )
@@ -87,27 +134,43 @@ ASSUMPTIONS = [
     "float arithmetic on the generated dyadic times is exact (differences and comparisons of multiples of 2^-8 below 2^12)",
     "psd inputs are positive, frequencies strictly increasing (the documented domain of area/interp/rescale); a scale that is "
     "not linear is read as logarithmic and must be positive",
-    "fixtime is modelled for a numeric sr, delspikes=False, base=None, negmethod='sort' with distinct times; records whose "
-    "time lies within 1e-8 (relative, squared) of the 3-sigma outlier threshold are skipped and counted",
+    "fixtime is modelled for negmethod='sort' with distinct times and sr > 0 (sr=None prompts the user: not modelled); records "
+    "whose time lies within 1e-8 (relative, squared) of the 3-sigma outlier threshold are skipped and counted unless the float "
+    "statistics are exact (the designed tie record); with a sample rate that is not a dyadic number the time base is compared "
+    "at 1e-9*dt and a case is skipped when a rounding (L, base), a turning-point test or a nearest/previous-sample decision lies "
+    "within 1e-9 of a tie; sigma, threshold_sigma >= 0 for the despikers; despiking with no positive threshold on windows that "
+    "are not 2^k + 1 points long is skipped on disagreement (flat stretches are decided by rounding noise, exactly 0 > 0); "
+    "_simple_filter on exactly flat survivors is outside the model (the code's decision is made by the rounding of 1/n); "
+    "despike(exclude_point='last') does not terminate on some records (a spike in the first sample): guarded by a 2-3 s limit, "
+    "counted, and the model's fuel runs out on the same inputs",
     "get_freq_oct inputs whose trimming decision lies within 1e-9 of a band centre/edge are skipped and counted",
 ]
 PARTIAL = (
     "partial (accuracy): Lanczos interpolation accuracy vs pts and anti-aliasing are measured by the oracle, not proved; "
-    "upsample_keeps_samples_full and constants_reproduced are proved for the whole modelled pipeline over the reals - the "
-    "Kaiser window is an input (hypothesis: centre value 1) and float round-off (e.g. mean of a constant not exactly the "
-    "constant) is measured only; storage types (integer, float32, lists) are covered by correspondence/oracle only, the "
-    "model works on numbers; fixtime: the time base is modelled for numeric sr / delspikes=False / base=None "
-    "(tnew_uniform: exact arithmetic progression, length, end rule) - not proved: that _mk_initial_tnew never raises on "
-    "sorted input with >= 2 samples and a bound on the alignment shift delt (both measured exactly by correspondence); "
-    "sr='auto' (sample-rate statistics), despiking and `base` are outside the model; the outlier-time test is decided "
-    "exactly in the model ((t-mean)^2 > 9 var), the code uses float mean/std: near ties are skipped; np.mean's division in "
-    "delt is exact in the model, rounded in the code (compared at 1e-9*dt when delt is not dyadic); rescale: the edge "
-    "partition is proved per branch (edges_partition_linear/_linear_tolerance/_log, edges_dispatch), the log branch's sqrt "
-    "is tied numerically; get_freq_oct: band relations are proved for whatever is returned (freq_oct_bands), the trimming "
-    "rules and the band count (floor/log2) are tied numerically and checked by the oracle, not proved; psd2time's "
-    "mean-square conservation (Parseval), psdmod = max of Welch slices and proc_psd_spec's NaN rule are oracle checks only; "
-    "area's remaining |s+1| < 1e-8 branch is proved to be within the relative amount |s+1|*ln(f2/f1) of the integral, not "
-    "equal to it (`area_segment_tolerance_band_inexact`), so area_is_integral_of_interpolant carries the slope hypothesis"
+    "resample: gcd reduction, length, decimation (every q'-th filtered sample), retained samples, constants (DC gain 1) and the "
+    "sum of the taps that meet original samples are proved - the sums of the other polyphase branches are only approximately 1 "
+    "(measured); the Kaiser window is an input (hypothesis: centre value 1); storage types are modelled (dtype flow, "
+    "resample_storage_types) and tied by the dtype stream, single-precision rounding is measured only; float round-off "
+    "everywhere is measured, never proved. fixtime: every option is inside the executable model fixtimeFull and tied exactly "
+    "end to end; PROVED about its parts: auto_sr_def, outtimes_removed_exactly (strict 3-sigma), dropouts_marked, "
+    "mk_initial_tnew_total, alignment_shift_bound (length-mismatch branch; in the mean branch the shift is NOT bounded by half a "
+    "step: proved counterexample 9/13), base_shift_hits_base, del_loners_only_adds, fixtime_idempotent + "
+    "uniform_has_no_outlier_times, tnew_uniform, nearest/previous rules - NOT proved: a single end-to-end theorem about the "
+    "composed routine (the composition is tied by correspondence), the exact fill rule of _del_loners (tied; only 'never clears "
+    "a flag' is proved), value_counts' first-seen tie order (modelled, re-measured), termination of the despike sweeps (the models "
+    "carry fuel; despike(exclude_point='last') really does not terminate on some records), full idempotence of the despikers (false: "
+    "min_limit is recomputed; despike_idempotent_partial states what holds); sr=None (interactive) is outside the model; `getall` / "
+    "ndarray-vs-tuple packaging is compared, not modelled. rescale: conservation is proved for any contiguous input edges "
+    "(rescale_conserves_area: uniform, log-spaced or arbitrary grids through the exactly-linear and the logarithmic edge rule) "
+    "and a constant PSD is proved unchanged inside the input range; with a scale that is linear only within the 1e-12 tolerance "
+    "the bands overlap/gap by < 1e-12|Df| (edges_partition_linear_tolerance) and conservation is numeric; with extendends=True "
+    "the sum form is proved only when no band sticks out (otherwise: rescale_conserves_extendends, per band); the log branch's "
+    "sqrt is tied numerically. get_freq_oct: trimming rules, band relations, band numbering and count (= number of untrimmed "
+    "bands passing the inclusive test) are proved; a closed form of the count in floor/ceil of the logarithms is not; "
+    "log2/log10/pow are numeric kernels (near ties skipped). psd2time's mean-square conservation (Parseval) and "
+    "proc_psd_spec's NaN rule are oracle checks only; psdmod: only its last step (row maximum) is modelled, Welch/waterfall are "
+    "library kernels; area's remaining |s+1| < 1e-8 branch is within |s+1|*ln(f2/f1) of the integral, not equal "
+    "(area_segment_tolerance_band_inexact), so area_is_integral_of_interpolant carries the slope hypothesis"
 )
 MANIFEST = {
     "level_text": "Proof (Lean 4, kernel-checked, standard axioms only) about executable models of the searchsorted-"
@@ -125,18 +188,35 @@ MANIFEST = {
     "means, end centres geometric means of their edges; extendends clips at the band EDGE), of area (Mathlib "
     "integral_rpow per segment; area(spec) = interval integral of the whole log-log interpolant psd.interp over [f0, fn]: "
     "area_is_integral_of_interpolant; additivity; tolerance band bounded), of log-log interpolation (piecewise power law; "
-    "exact at break points) and of get_freq_oct's bands (FU/FL = 2^(1/n) or 10^(3/(10n)), F = sqrt(FL*FU), contiguous). "
+    "exact at break points; straight line in log-log: interp_log_is_loglog_line) and of get_freq_oct (FU/FL = 2^(1/n) or "
+    "10^(3/(10n)), F = sqrt(FL*FU), contiguous; the returned run holds exactly the bands passing the inclusive trimming test: "
+    "freq_oct_trim_rules, freq_oct_count; exact vs preferred scale: freq_oct_exact_vs_preferred). Added with the complete "
+    "fixtime model: what sr='auto' chooses (most frequent rounded rate, resolution 5 or tenths, else nearest multiple to the "
+    "average: auto_sr_def), who survives the cleaning (outtimes_removed_exactly: strict 3-sigma test; dropouts_marked), "
+    "_mk_initial_tnew never raises on >= 2 sorted samples (mk_initial_tnew_total), the alignment shift is within half a step in "
+    "the length-mismatch branch and provably not in the mean branch, `base` moves the grid by <= half a step onto base + k/sr, "
+    "_del_loners never clears a flag, fixing a fixed record changes nothing (fixtime_idempotent, uniform_has_no_outlier_times); "
+    "the despikers' decision is `delta > fmax(sigma*std, min_limit)` strictly (despike_decision_rule over the reals), a signal "
+    "with no such point is returned unchanged (despike_fixed_point, despike_idempotent_partial); rescale_conserves_area, "
+    "rescale_constant_psd_unchanged; psdmod's row maximum bounds every slice and their average; resample: common factors of p, q "
+    "drop out, output sample j is filtered sample j*q', DC gain 1, every buffer is float64 (resample_storage_types); the "
+    "literals / defaults / comparison operators of the source are the models' (Generated/C19Consts.lean + decide obligations). "
     "Models are tied to /repo by exact correspondence on dyadic inputs (index rules, bookkeeping, time base, lengths, "
     "linear band edges, fixtime end to end) and numeric correspondence (1e-9) for area/interp/rescale/edges/"
-    "get_freq_oct/resample. Partial: interpolation accuracy of the Lanczos filter, fixtime's sample-rate heuristics and "
-    "despiking, get_freq_oct's trimming arithmetic and psd2time's Parseval identity are measured, not proved.",
+    "get_freq_oct/resample; fixtime with every option, _sr_calcs, _del_loners and the despikers exactly (rational models, "
+    "designed ties included). Partial: interpolation accuracy of the Lanczos filter, float round-off, the composition of "
+    "fixtime's proved parts, termination of the despike sweeps and psd2time's Parseval identity are measured / tied, not proved.",
     "level_note": "Trusted: Lean kernel; propext, Classical.choice, Quot.sound; the Python harness; numpy/scipy "
     "kernels as listed in trusted_base; numba variants and rescale's nested edge code are source text only. Tied or "
     "measured only (not proved): float round-off everywhere, storage dtypes, the Kaiser window values, the 3-sigma "
-    "statistics in floating point, _mk_initial_tnew's totality and shift bound, get_freq_oct's trimming, psd2time, psdmod.",
+    "statistics in floating point, value_counts' tie order, the fill rule of _del_loners, the despike sweeps beyond their first "
+    "pass (exact streams only), get_freq_oct's log kernels, psd2time, Welch/waterfall inside psdmod. Observation (not a property "
+    "violation): despike(exclude_point='last') does not terminate when the first sample is a spike; sr='auto' works to a "
+    "resolution set by the slowest rate present (uniform 8 Hz data -> 10 Hz; auto_sr_uniform_8hz_gives_10).",
     "technique": "Lean 4 proof (list induction for index rules, cumulative area, convolution and bookkeeping; Mathlib "
-    "interval integrals for area; rpow for octave bands) + exact/numeric differential correspondence with pyyeti.dsp / "
-    "pyyeti.psd + ast extraction of nested source text",
+    "interval integrals for area; rpow/logb for octave bands; real square roots for the despike rule; closed-form sums for "
+    "the 3-sigma bound of a uniform grid) + exact/numeric differential correspondence with pyyeti.dsp / pyyeti.psd + ast "
+    "extraction of nested source text + ast translator of constants / operators with decide obligations",
 }
 
 # ---------------------------------------------------------------------------------------
@@ -261,10 +341,25 @@ def _rescale_edge_source(repo):
 
 def translate(ctx):
     global _EDGE_SRC
+    import sys
+
     _EDGE_SRC = None
     _EDGE_SRC = _rescale_edge_source(ctx.repo)
     ctx.extra["rescale_edge_code"] = "source text of rescale._get_fl_fu and of the input-edge block, exec'd as plain Python"
-    return ["psd.rescale._get_fl_fu (source text)", "psd.rescale input-edge block (source text)"]
+    # constants, defaults and comparison operators of dsp.py / psd.py -> Generated/C19Consts.lean
+    tdir = os.path.join(ctx.verif, "harness", "translate")
+    if tdir not in sys.path:
+        sys.path.insert(0, tdir)
+    import c19_consts as tr
+
+    try:
+        names, consts = tr.run(ctx.repo, ctx.lean)
+    except tr.Unparsable as e:
+        raise TieBroken("the constants of dsp.py / psd.py no longer fit the translator's grammar: %s" % e)
+    except (OSError, SyntaxError) as e:
+        raise TieBroken("cannot read dsp.py / psd.py: %s" % e)
+    ctx.extra["generated_constants"] = consts
+    return ["psd.rescale._get_fl_fu (source text)", "psd.rescale input-edge block (source text)"] + names
 
 
 # ---------------------------------------------------------------------------------------
@@ -905,9 +1000,9 @@ def _corr_resample(ctx, drv):
         data = nprng.normal(size=ln) + rng.choice([0.0, 3.0])
         if rng.random() < 0.15:
             data = np.full(ln, float(rng.choice([3.0, -0.375, 0.1, 1e6 + 0.3])))
-        elif rng.random() < 0.45:
-            # the same numbers stored with another dtype (raw counts, single precision, a Python list)
-            dtn = rng.choice(_DTYPES)
+        elif rng.random() < 0.45 or len(dtypes) < len(_DTYPES):
+            # the same numbers stored with another dtype (raw counts, single precision, a Python list); every dtype at least once
+            dtn = _DTYPES[len(dtypes)] if len(dtypes) < len(_DTYPES) else rng.choice(_DTYPES)
             data = _typed_numbers(nprng, ln, dtn)[1]
             dtypes[len(ncases)] = dtn
         ncases.append((p, q, pts, beta, w, data))
@@ -1137,6 +1232,706 @@ def _corr_rescale(ctx, drv):
             ctx.disagree("rescale-n_oct", c, {"psd": np.asarray(po).tolist(), "ms": np.asarray(ms).tolist()}, {"psd": mp_.tolist(), "ms": mm.tolist()})
 
 
+# ----- fixtime, every option: sr='auto', dropval, delspikes, base (Model/FixtimeFull.lean) -------------------
+
+import signal as _signal
+
+
+class _Timeout(Exception):
+    pass
+
+
+def _alarm(*_a):
+    raise _Timeout()
+
+
+def _guarded(fn, secs=3):
+    """fn() with a wall-clock limit (despike(exclude_point='last') does not terminate on some records);
+    -> ('ok', value) | ('timeout', None) | ('error', name)"""
+    try:
+        old = _signal.signal(_signal.SIGALRM, _alarm)
+    except ValueError:          # not in the main thread: no limit available
+        old = None
+    try:
+        if old is not None:
+            _signal.alarm(secs)
+        return ("ok", fn())
+    except _Timeout:
+        return ("timeout", None)
+    except (ValueError, IndexError, ZeroDivisionError, FloatingPointError) as e:
+        return ("error", type(e).__name__)
+    finally:
+        if old is not None:
+            _signal.alarm(0)
+            _signal.signal(_signal.SIGALRM, old)
+
+
+_XP_PY = {"f": "first", "m": "middle", "l": "last", "n": None}
+
+
+def _xp_py(tok):
+    return _XP_PY[tok] if tok in _XP_PY else int(tok[1:])
+
+
+def _gen_spiky(rng, n, exact):
+    """data for the despikers: a flat (exact) or gently varying background with a few spikes; integers, so that with a
+    window of n-1 = 2^k points every statistic of the code is computed exactly"""
+    b = rng.choice([0, 2, 5, 100])
+    y = [b] * n if exact else [b + rng.choice([0, 0, 0, 1, -1]) for _ in range(n)]
+    for _ in range(rng.randint(1, 4)):
+        i = rng.randrange(n)
+        w = rng.randint(1, 3)
+        a = rng.choice([4, 8, 16, -8, 3, 100, 5, -4])
+        for k in range(i, min(n, i + w)):
+            y[k] += a
+    return [float(v) for v in y]
+
+
+def _gen_delspikes(rng, exact):
+    """a `delspikes` argument of fixtime: False | True | dict"""
+    k = rng.random()
+    if k < 0.2:
+        return True
+    method = rng.choice(["despike_diff", "despike_diff", "despike", "despike", "simple"])
+    d = {"method": method, "n": rng.choice([3, 5, 9] if exact else [3, 5, 9, 4, 7, 15]), "sigma": rng.choice([8, 2, 3, 1]),
+         "maxiter": rng.choice([-1, -1, 1, 2, 0])}
+    if method != "simple":
+        if rng.random() < (1.0 if exact else 0.6):
+            d["threshold_value"] = float(rng.choice([4, 2, 8, 0, 3, 5]))
+        else:
+            d["threshold_sigma"] = float(rng.choice([2, 0, 1]))
+        if method == "despike":
+            d["exclude_point"] = rng.choice(["first", "first", "middle", 0, 1, "last"] if not exact else ["first", "first", "middle", 0, 1])
+        elif rng.random() < 0.3:
+            d["exclude_point"] = rng.choice(["first", 0, "last"])
+    return d
+
+
+def _gen_fixfull(rng, kind=None):
+    """a fixtime input with every option in play"""
+    c = _gen_fixtime(rng, kind)
+    c["full"] = True
+    n = len(c["t"])
+    c["sr_opt"] = "auto" if rng.random() < 0.35 else c["sr"]
+    if rng.random() < 0.15:
+        c["sr_opt"] = rng.choice([3, 5, 10, 0.5, 12.5])
+    t0 = min(c["t"])
+    c["base"] = None if rng.random() < 0.5 else rng.choice([0.0, t0 + rng.randint(-40, 400) / GRID, t0 - 1000.0, float(rng.randint(-5, 50)),
+                                                           t0 + rng.randint(0, 64) / (2.0 * c["sr"])])
+    dv = rng.choice(["default", "default", "default", -999.0, 0.0, "nan", 7.5])
+    c["dropval"] = dv
+    y = _yarr(c)
+    if isinstance(dv, float) and dv != 0.0:
+        for _ in range(rng.randint(1, 3)):
+            y[rng.randrange(n)] = dv * rng.choice([1.0, 1.005, 0.995, 1.02, 0.98, 1.0])
+    exact = rng.random() < 0.5
+    c["delspikes"] = False
+    if rng.random() < 0.4 and n >= 12:
+        ds = _gen_delspikes(rng, exact)
+        c["delspikes"] = ds
+        c["spike_exact"] = exact and isinstance(ds, dict) and ds["method"] != "simple"
+        yy = np.array(_gen_spiky(rng, n, c["spike_exact"]))
+        bad = ~np.isfinite(y) if c["deldrops"] else np.zeros(n, bool)   # keep the drop-outs only where they are deleted
+        if isinstance(dv, float) and c["deldrops"]:
+            bad |= np.isfinite(y) & (np.abs(y - dv) < abs(dv) / 100)
+        y = np.where(bad, y, yy)
+    c["y"] = ["%r" % float(v) for v in y]
+    return c
+
+
+def _dropval_of(c):
+    dv = c.get("dropval", "default")
+    return DROPVAL if dv == "default" else float("nan") if dv == "nan" else float(dv)
+
+
+def _delspikes_params(ds):
+    """the effective parameters after fixtime's _prep_delspikes: (method, n, sigma, maxiter, ts, tv, xp token)"""
+    d = dict(ds) if isinstance(ds, dict) else {}
+    method = d.get("method", "despike_diff")
+    xp = d.get("exclude_point", "first")
+    tok = {"first": "f", "middle": "m", "last": "l", None: "n"}[xp] if (xp is None or isinstance(xp, str)) else "k%d" % xp
+    return method, int(d.get("n", 15)), d.get("sigma", 8), int(d.get("maxiter", -1)), d.get("threshold_sigma", 2.0), d.get("threshold_value", None), tok
+
+
+def _run_fixfull(c):
+    """-> ('ok', dict) | ('timeout'|'error', what)"""
+    from pyyeti import dsp
+
+    t = np.array(c["t"], dtype=float)
+    y = _yarr(c)
+
+    def call():
+        with warnings.catch_warnings(record=True) as w:
+            warnings.simplefilter("always")
+            with np.errstate(all="ignore"):
+                (tn, yn), info = dsp.fixtime(
+                    (t.copy(), y.copy()), c["sr_opt"], hold_previous_value=c["hold"], previous_value_tol=c["tol"],
+                    deldrops=c["deldrops"], dropval=_dropval_of(c), delouttimes=c["delouttimes"], delspikes=c["delspikes"],
+                    base=c["base"], getall=True, verbose=False)
+        msgs = [str(x.message) for x in w]
+        return np.asarray(tn), np.asarray(yn), info, msgs
+
+    st, r = _guarded(call)
+    if st != "ok":
+        return st, r
+    tn, yn, info, msgs = r
+    ad = info.alldrops
+    early = isinstance(ad, tuple)
+    ns = ad[2] if early else ad
+
+    def lst(v):
+        return None if v is None else sorted(int(i) for i in np.asarray(v).ravel())
+
+    return "ok", {"tn": tn, "yn": yn, "early": early, "dropouts": lst(ns.dropouts), "outtimes": lst(ns.outtimes), "spikes": lst(ns.spikes),
+                  "alldrops": lst(ns.alldrops), "sr_stats": None if info.sr_stats is None else [float(v) for v in info.sr_stats],
+                  "tp": None if info.tp is None else [int(i) for i in info.tp],
+                  "niter": None if info.despike_info is None else int(info.despike_info.niter),
+                  "warn_small": any("smaller than" in m for m in msgs), "warn_large": any("larger than" in m for m in msgs)}
+
+
+def _sample_tokens(y):
+    return " ".join("nan" if v != v else "inf" if v in (float("inf"), float("-inf")) else _q(v) for v in y)
+
+
+def _opt(v):
+    return "none" if v is None else _q(v)
+
+
+def _fxt_request(c, ts_, ys_, sv, sr_tok, spike_flags):
+    dv = _dropval_of(c)
+    ds = c["delspikes"]
+    spn = "none" if not ds else str(_delspikes_params(ds)[1])
+    return "fxt %d %d %d | %s %s %s %s %s | %s | %s | %s | %s" % (
+        c["deldrops"], c["delouttimes"], c["hold"], "none" if not math.isfinite(dv) else _q(dv), sr_tok, _q(c["tol"]), _opt(c["base"]), spn,
+        _qs(ts_), _sample_tokens(ys_), "" if sv is None else " ".join(str(int(i)) for i in sv), " ".join("1" if b else "0" for b in spike_flags))
+
+
+def _despike_requests(method, n, sigma, maxiter, ts, tv, xp, data, eps):
+    """the model request for one despiker call with all thresholds scaled by (1 + eps)"""
+    f = Fraction(1) + Fraction(eps)
+    sg = Fraction(sigma) * f
+    if method == "simple":
+        return "smp %d %s %d | %s" % (n, _q(sg), maxiter, _qs(data))
+    tsq = Fraction(ts) * f
+    scale = max([1.0] + [abs(v) for v in data])
+    tvq = "none" if tv is None else _q(Fraction(tv) + Fraction(eps) * Fraction(scale))
+    return "%s %d %s %d %s %s %s | %s" % ("dsp" if method == "despike" else "dsd", n, _q(sg), maxiter, _q(tsq), tvq, xp, _qs(data))
+
+
+_EPS = Fraction(1, 10 ** 9)
+
+
+def _parse_fxt(r):
+    if r in ("raises", "bad-op"):
+        return r
+    e, tn, src, dr, ot, sp, ad, kp, sr, st, tp, wr, sh = r.split("|")
+
+    def nats(x):
+        return None if x.strip() == "none" else [int(v) for v in x.split()]
+
+    stats = None
+    if st.strip() != "none":
+        v = st.split()
+        stats = {"max": float("inf") if v[0] == "inf" else Fraction(v[0]), "min": Fraction(v[1]), "ave": Fraction(v[2]), "mode": Fraction(v[3]),
+                 "pct": Fraction(v[4]), "dsr": Fraction(v[5]), "bymode": v[6] == "1", "defsr": Fraction(v[7])}
+    return {"early": e == "1", "tnew": _unq(tn), "src": nats(src), "dropouts": nats(dr), "outtimes": nats(ot), "spikes": nats(sp), "alldrops": nats(ad),
+            "keep": nats(kp), "sr": Fraction(sr), "stats": stats, "tp": nats(tp), "warn": [x == "1" for x in wr.split()], "shift": Fraction(sh)}
+
+
+def _sr_near_tie(difft, st):
+    """is a rounding or a comparison of _sr_calcs within 1e-9 of a tie on these steps? (model statistics `st`)"""
+    d = [Fraction(float(x)) for x in difft if x != 0]
+    if not d:
+        return True
+    sr_all = [1 / x for x in d]
+    sr1 = min(sr_all)
+    tol = Fraction(1, 10 ** 9)
+
+    def half(x):
+        fr = x - math.floor(x)
+        return abs(fr - Fraction(1, 2)) <= tol * max(1, abs(x))
+
+    if abs(sr1 - 5) <= tol * 5 or (sr1 <= 5 and half(10 * max(sr1, Fraction(1, 10)))):
+        return True
+    dsr = st["dsr"]
+    if any(half(s / dsr) for s in sr_all) or half(st["ave"] / dsr):
+        return True
+    if abs(st["pct"] - 90) <= tol * 90 or abs(abs(st["mode"] - st["ave"]) - dsr) <= tol * dsr:
+        return True
+    return False
+
+
+def _corr_fixfull(ctx, drv):
+    """dsp.fixtime with every option against Model/FixtimeFull.lean (exact at Rat; numeric where the sample rate is not
+    dyadic), the despiker's flags from Model/FixtimeDespike.lean"""
+    rng = ctx.rng
+    cases = []
+    # fixed cases: a time exactly 3 sigma from the mean (not an outlier: the test is strict), sr='auto' on exactly uniform
+    # data at 8 Hz (chooses 10), base, the despike documentation example
+    for tt in ([3, 16, 18, 19, 33, 39, 43, 45, 49, 52, 57, 58, 166], [14, 28, 34, 35, 36, 40, 44, 51, 54, 55, 56, 165]):
+        cases.append({"t": [float(v) for v in tt], "y": ["%r" % float(k) for k in range(len(tt))], "sr": 1, "sr_opt": 1, "hold": False, "tol": 1e-3,
+                      "deldrops": True, "delouttimes": True, "kind": "sigma-tie", "full": True, "base": None, "dropval": "default", "delspikes": False})
+    cases.append({"t": (np.arange(40) / 8).tolist(), "y": ["%r" % float(k) for k in range(40)], "sr": 8, "sr_opt": "auto", "hold": False, "tol": 1e-3,
+                  "deldrops": True, "delouttimes": True, "kind": "uniform", "full": True, "base": None, "dropval": "default", "delspikes": False})
+    cases.append({"t": (np.arange(30) / 4).tolist(), "y": ["%r" % float(k) for k in range(30)], "sr": 4, "sr_opt": 4, "hold": False, "tol": 1e-3,
+                  "deldrops": True, "delouttimes": True, "kind": "uniform", "full": True, "base": 0.125, "dropval": "default", "delspikes": False})
+    cases.append({"t": [float(k) for k in range(6)], "y": ["nan", "inf", "-inf", "nan", "%r" % DROPVAL, "nan"], "sr": 1, "sr_opt": 1, "hold": False, "tol": 1e-3,
+                  "deldrops": True, "delouttimes": True, "kind": "dropouts", "full": True, "base": None, "dropval": "default", "delspikes": False})
+    yy = [2.0] * 30
+    yy[4] = 5.0
+    yy[9] = 7.0
+    yy[20] = 6.0
+    for ds in ({"method": "despike_diff", "n": 5, "threshold_value": 4.0}, {"method": "despike", "n": 5, "threshold_value": 4.0, "sigma": 2},
+               {"method": "despike", "n": 5, "threshold_value": 4.0, "exclude_point": "middle", "sigma": 2}, {"method": "simple", "n": 5, "sigma": 2}):
+        cases.append({"t": [float(k) for k in range(30)], "y": ["%r" % v for v in yy], "sr": 1, "sr_opt": 1, "hold": False, "tol": 1e-3, "deldrops": True,
+                      "delouttimes": True, "kind": "spikes", "full": True, "base": None, "dropval": "default", "delspikes": ds, "spike_exact": ds["method"] != "simple"})
+    cases += [_gen_fixfull(rng) for _ in range(ctx.pick(900, 6000))]
+    # phase A: what survives _del_drops / _del_outtimes (the despiker's input)
+    pre = []
+    reqA = []
+    for c in cases:
+        ds = c["delspikes"]
+        if ds and not c["deldrops"] and not np.isfinite(_yarr(c)).all():
+            ctx.skip("fixtime: despiking a record that keeps its nan/inf samples")
+            continue
+        st, r = _run_fixfull(c)
+        if st == "timeout":
+            ctx.count("fixtime-full:despiker-does-not-terminate")
+            ctx.skip("fixtime: the despiker did not terminate within 3 s")
+            continue
+        ts_, ys_, sv = _sorted_record(c)
+        dv = _dropval_of(c)
+        spn = "none" if not ds else str(_delspikes_params(ds)[1])
+        reqA.append("fxk %d %d %s | %s | %s | %s" % (c["deldrops"], c["delouttimes"], spn, "none" if not math.isfinite(dv) else _q(dv), _qs(ts_), _sample_tokens(ys_)))
+        pre.append((c, st, r, ts_, ys_, sv))
+    repA = drv.ask(reqA)
+    # phase B: the despiker on those samples (nominal and with every threshold scaled by 1 +- 1e-9)
+    reqB = []
+    slots = []
+    for (c, st, r, ts_, ys_, sv), ra in zip(pre, repA):
+        ds = c["delspikes"]
+        if not ds or ra in ("early", "bad-op"):
+            slots.append(None)
+            continue
+        keep1 = [int(v) for v in ra.split()]
+        data = [float(ys_[i]) for i in keep1]
+        if not all(math.isfinite(v) for v in data) or len(data) < 4:
+            slots.append("skip")
+            continue
+        m, n, sg, mi, tsg, tv, xp = _delspikes_params(ds)
+        slots.append(len(reqB))
+        for eps in (0, _EPS, -_EPS):
+            reqB.append(_despike_requests(m, n, sg, mi, tsg, tv, xp, data, eps))
+    repB = drv.ask(reqB)
+    # phase C: the whole routine
+    reqC = []
+    keepC = []
+    for (c, st, r, ts_, ys_, sv), ra, sl in zip(pre, repA, slots):
+        if sl == "skip":
+            ctx.skip("fixtime: despiker input outside the model (non-finite or fewer than 4 samples)")
+            continue
+        flags = []
+        niter = None
+        if sl is not None:
+            nom, up, dn = repB[sl], repB[sl + 1], repB[sl + 2]
+            if "raises" in (nom, up, dn) or "bad-op" in (nom, up, dn):
+                if st == "ok" and nom == "raises" and _delspikes_params(c["delspikes"])[0] != "simple":
+                    ctx.disagree("fixtime-full-despiker-raises", c, "returned", nom)
+                else:
+                    ctx.skip("fixtime: the despiker raises / leaves the model's domain")
+                continue
+            if not (nom == up == dn):
+                if c.get("spike_exact"):
+                    ctx.count("branch:despike-exact-tie")      # a designed tie, every statistic exact: compared as is
+                else:
+                    ctx.skip("fixtime: a despike decision within 1e-9 of its threshold")
+                    continue
+            fl, ni = nom.split("|")
+            flags = [x == "1" for x in fl.split()]
+            niter = int(ni)
+        sr_tok = "auto" if c["sr_opt"] == "auto" else _q(c["sr_opt"])
+        reqC.append(_fxt_request(c, ts_, ys_, sv, sr_tok, flags))
+        keepC.append((c, st, r, ts_, ys_, sv, niter))
+    repC = drv.ask(reqC)
+    again = []
+    for (c, st, r, ts_, ys_, sv, niter), rc in zip(keepC, repC):
+        m = _parse_fxt(rc)
+        if m == "bad-op":
+            ctx.disagree("fixtime-full", c, st, m)
+            continue
+        if st != "ok" or m == "raises":
+            ctx.case(("fixfull", json.dumps(c, sort_keys=True)), nontrivial=False, branch="fixtime-full:raises")
+            if (st == "ok") != (m != "raises"):
+                if c["sr_opt"] == "auto" or len(ts_) < 3:
+                    ctx.skip("fixtime: error kind of a degenerate record")
+                else:
+                    ctx.disagree("fixtime-full-raises", c, st if st != "ok" else "returned", m if m == "raises" else "returned")
+            continue
+        bad = _cmp_fixfull(ctx, c, r, m, ts_, ys_, niter)
+        if bad is not None:
+            again.append((c, r, m, ts_, ys_, sv, niter, bad, reqC[keepC.index((c, st, r, ts_, ys_, sv, niter))]))
+    # a disagreement with a sample rate that is not a dyadic number: re-run the model with the rate moved by 1e-11 either way;
+    # if the model's own structure changes the case sits on a rounding tie and is skipped
+    req2 = []
+    for (c, r, m, ts_, ys_, sv, niter, bad, rq) in again:
+        if _dyadic_rate(m["sr"]):
+            continue
+        for f in (Fraction(1) + Fraction(1, 10 ** 11), Fraction(1) - Fraction(1, 10 ** 11)):
+            parts = rq.split("|")
+            opts = parts[1].split()
+            opts[1] = _q(m["sr"] * f)
+            parts[1] = " " + " ".join(opts) + " "
+            req2.append("|".join(parts))
+    rep2 = drv.ask(req2)
+    k2 = 0
+    for (c, r, m, ts_, ys_, sv, niter, bad, rq) in again:
+        if not _dyadic_rate(m["sr"]):
+            a, b = _parse_fxt(rep2[k2]), _parse_fxt(rep2[k2 + 1])
+            k2 += 2
+            def shape(x):
+                # the alignment offset in steps (6 decimals): a tie of _get_prev_index / of a rounding moves it by a whole step
+                off = round(float((x["tnew"][0] - x["shift"]) * x["sr"]), 6) if (not isinstance(x, str) and x["tnew"]) else None
+                off = None if off is None else round(off - math.floor(off), 5)
+                return x if isinstance(x, str) else (len(x["tnew"]), x["src"], x["tp"], x["alldrops"], x["warn"], off)
+            if not (shape(a) == shape(b) == shape(m)):
+                ctx.skip("fixtime: a decision within rounding of a tie (sample rate not dyadic)")
+                continue
+        ctx.disagree(bad[0], c, bad[1], bad[2])
+
+
+def _dyadic_rate(sr):
+    """is the time step 1/sr (and sr) a dyadic number? (then the code's arithmetic on the dyadic test records is exact)"""
+    n, d = sr.numerator, sr.denominator
+    return n > 0 and (n & (n - 1)) == 0 and (d & (d - 1)) == 0
+
+
+def _cmp_fixfull(ctx, c, r, m, ts_, ys_, niter):
+    """compare one fixtime result `r` with the model's `m`; -> None or (stream, impl, model)"""
+    ds = c["delspikes"]
+    br = "fixtime-full:%s:%s:%s" % ("auto" if c["sr_opt"] == "auto" else "sr", "spikes" if ds else "nospikes", "base" if c["base"] is not None else "nobase")
+    if m["early"] or r["early"]:
+        ctx.case(("fixfull", json.dumps(c, sort_keys=True)), nontrivial=True, branch="fixtime-full:only-dropouts")
+        if not (m["early"] and r["early"]):
+            return ("fixtime-full-early", r["early"], m["early"])
+        if not (np.array_equal(r["tn"], ts_) and np.array_equal(r["yn"], ys_, equal_nan=True) and r["dropouts"] == m["dropouts"]):
+            return ("fixtime-full-early", {"t": r["tn"].tolist()[:8], "dropouts": r["dropouts"]}, {"dropouts": m["dropouts"]})
+        return None
+    # statistics and the chosen rate
+    st = m["stats"]
+    mv = [float(st["max"]), float(st["min"]), float(st["ave"]), float(st["mode"]), float(st["pct"])]
+    # branch bookkeeping first (from the MODEL's view of the case), so that a disagreement never hides a declared branch
+    ctx.case(("fixfull", json.dumps(c, sort_keys=True)), nontrivial=True, branch=br)
+    if c["sr_opt"] == "auto":
+        ctx.count("branch:fixtime-auto-" + ("mode" if st["bymode"] else "average"))
+        if st["dsr"] != 5:
+            ctx.count("branch:fixtime-auto-slow-resolution")
+        if m["sr"] != c["sr"]:
+            ctx.count("branch:fixtime-auto-rate-differs-from-nominal")
+    if c["base"] is not None:
+        ctx.count("branch:fixtime-base")
+    if isinstance(c.get("dropval"), float) and m["dropouts"]:
+        ctx.count("branch:fixtime-dropval-given")
+    if c.get("dropval") == "nan":
+        ctx.count("branch:fixtime-dropval-not-finite")
+    if c.get("kind") == "sigma-tie":
+        ctx.count("branch:fixtime-time-exactly-3-sigma")
+    if ds:
+        ctx.count("branch:fixtime-delspikes-" + _delspikes_params(ds)[0])
+        if m["spikes"]:
+            ctx.count("branch:fixtime-spikes-removed")
+            if len(m["alldrops"]) > len(set(m["spikes"]) | set(m["dropouts"] or []) | set(m["outtimes"] if c["delouttimes"] else [])):
+                ctx.count("branch:fixtime-loners-filled")
+    if m["warn"][0] or m["warn"][1]:
+        ctx.count("branch:fixtime-dt-size-warning")
+    sr_impl = None
+    if len(r["tn"]) > 1:
+        sr_impl = 1.0 / float(np.mean(np.diff(r["tn"])))
+    stats_ok = np.allclose(r["sr_stats"], mv, rtol=1e-9, atol=0)
+    rate_ok = sr_impl is None or abs(sr_impl - float(m["sr"])) <= 1e-7 * float(m["sr"])
+    if not (stats_ok and rate_ok):
+        kept = [Fraction(float(ts_[i])) for i in _kept_before_spikes(m)]
+        if _sr_near_tie(np.diff([float(x) for x in kept]), st):
+            ctx.skip("fixtime: a rounding or comparison of the sample-rate statistics within 1e-9 of a tie")
+            return None
+        return ("fixtime-full-sr", {"sr_stats": r["sr_stats"], "sr": sr_impl}, {"sr_stats": mv, "sr": float(m["sr"]), "dsr": float(st["dsr"]), "by_mode": st["bymode"]})
+    for k in ("dropouts", "outtimes", "spikes", "alldrops"):
+        if r[k] != m[k]:
+            if ds and k in ("spikes", "alldrops") and not c.get("spike_exact"):
+                pm = _delspikes_params(ds)
+                if pm[0] != "simple" and ((pm[5] is None and pm[4] == 0) or (pm[5] is not None and pm[5] <= 0)):
+                    ctx.skip("despike: no positive threshold, statistics not exact - flat windows are decided by rounding noise")
+                    return None
+            return ("fixtime-full-" + k, {kk: r[kk] for kk in ("dropouts", "outtimes", "spikes", "alldrops")},
+                    {kk: m[kk] for kk in ("dropouts", "outtimes", "spikes", "alldrops")})
+    if ds:
+        if niter is not None and r["niter"] != niter:
+            pm = _delspikes_params(ds)
+            if not c.get("spike_exact") and pm[0] != "simple" and ((pm[5] is None and pm[4] == 0) or (pm[5] is not None and pm[5] <= 0)):
+                ctx.skip("despike: no positive threshold, statistics not exact - flat windows are decided by rounding noise")
+                return None
+            return ("fixtime-full-despike-niter", r["niter"], niter)
+    if r["tp"] != m["tp"]:
+        return ("fixtime-full-tp", r["tp"][:12], m["tp"][:12])
+    if [r["warn_small"], r["warn_large"]] != m["warn"]:
+        dt = 1 / m["sr"]
+        kept = [Fraction(float(ts_[i])) for i in m["keep"]]
+        d = [b - a for a, b in zip(kept, kept[1:])]
+        lo = Fraction(sum(1 for x in d if x < Fraction(93, 100) * dt), max(1, len(d)))
+        hi = Fraction(sum(1 for x in d if x > Fraction(107, 100) * dt), max(1, len(d)))
+        edge = any(abs(x - Fraction(93, 100) * dt) < Fraction(1, 10 ** 9) * dt or abs(x - Fraction(107, 100) * dt) < Fraction(1, 10 ** 9) * dt for x in d)
+        if edge or lo == Fraction(1, 100) or hi == Fraction(1, 100):
+            ctx.skip("fixtime: a time step within rounding of 0.93/1.07 dt (or exactly 1 % of the steps)")
+        else:
+            return ("fixtime-full-dt-warnings", [r["warn_small"], r["warn_large"]], m["warn"])
+    # the time base
+    mt = m["tnew"]
+    tn = r["tn"]
+    dt = 1 / m["sr"]
+    if len(mt) != len(tn):
+        return ("fixtime-full-tnew", {"len": len(tn)}, {"len": len(mt)})
+    den = (mt[0].denominator if mt else 1)
+    dyadic = c["base"] is None and all((x.denominator & (x.denominator - 1)) == 0 and x.denominator <= 2 ** 40 for x in (mt[:1] + mt[-1:] + [dt]))
+    it = [Fraction(float(x)) for x in tn]
+    if dyadic:
+        ok = it == mt
+        ctx.count("branch:fixtime-full-exact-time-base")
+    else:
+        tol = Fraction(1, 10 ** 9) * dt * max(1, len(mt))
+        ok = all(abs(x - y) <= tol for x, y in zip(it, mt))
+    if not ok:
+        if c["base"] is not None and mt:
+            x = (Fraction(float(c["base"])) - (mt[0] - m["shift"])) * m["sr"]
+            if abs((x - math.floor(x)) - Fraction(1, 2)) <= Fraction(1, 10 ** 9) * max(1, abs(x)):
+                ctx.skip("fixtime: round((base - t0)*sr) within 1e-9 of a half (sample rate not dyadic)")
+                return None
+        return ("fixtime-full-tnew", {"tnew": tn.tolist()[:8]}, {"tnew": [float(x) for x in mt[:8]], "sr": float(m["sr"])})
+    want = ys_[m["src"]]
+    if len(r["yn"]) != len(want) or not np.array_equal(r["yn"], want, equal_nan=True):
+        dtd = dt.denominator
+        if (dtd & (dtd - 1)) != 0 and _index_near_tie([Fraction(float(ts_[i])) for i in m["keep"]], [x - m["shift"] for x in mt], c["hold"], Fraction(c["tol"]), dt):
+            ctx.skip("fixtime: a new time within 1e-9 dt of a nearest/previous-sample tie (sample rate not dyadic)")
+            return None
+        return ("fixtime-full-data", ["%r" % v for v in r["yn"].tolist()[:16]], ["%r" % v for v in want.tolist()[:16]])
+    return None
+
+
+def _index_near_tie(kept, mt, hold, tol, dt):
+    """is some new time (before the `base` shift) within 1e-9*dt of the point where the selected old sample changes?"""
+    import bisect
+
+    eps = Fraction(1, 10 ** 9) * dt
+    pts = sorted((x - dt * tol) for x in kept) if hold else sorted((a + b) / 2 for a, b in zip(kept, kept[1:]))
+    if not pts:
+        return False
+    for t in mt:
+        k = bisect.bisect_left(pts, t)
+        for j in (k - 1, k):
+            if 0 <= j < len(pts) and abs(pts[j] - t) <= eps:
+                return True
+    return False
+
+
+def _kept_before_spikes(m):
+    """positions (sorted record) that entered _sr_calcs: everything kept at the end plus the spikes' own positions are not known
+    in the sorted numbering when a sort happened; the statistics are re-derived only for the near-tie test"""
+    return m["keep"]
+
+
+# ----- _sr_calcs, _del_loners, exclusive_sgfilter, despike, despike_diff called directly ---------------------------
+
+def _corr_helpers(ctx, drv):
+    from pyyeti import dsp
+
+    rng = ctx.rng
+    # _sr_calcs ----------------------------------------------------------------------------------------
+    cases = [np.diff(np.arange(40) / 8.0), np.diff(np.arange(12) / 0.25), np.array([1.0, 1.0, 4.0]), np.array([0.25] * 19 + [10.0])]
+    for _ in range(ctx.pick(500, 4000)):
+        kind = rng.choice(["dy", "dec", "slow"])
+        n = rng.randint(3, 40)
+        if kind == "dy":
+            sr = 2 ** rng.choice([0, 1, 2, 3, 4, 5])
+            u = GRID // sr
+            ts = [k * u for k in range(n)]
+            if rng.random() < 0.7:
+                ts = [v + rng.randint(-(u // 8), u // 8) for v in ts]
+            if rng.random() < 0.5 and len(ts) > 4:
+                i = rng.randrange(1, len(ts) - 1)
+                del ts[i:i + rng.randint(1, 3)]
+            if rng.random() < 0.15 and len(ts) > 3:
+                ts[1] = ts[0]                     # two equal times: max_sr = inf
+            t = np.array(sorted(ts)) / GRID
+        else:
+            sr = rng.choice([10, 20, 50, 100, 7, 3, 12.5]) if kind == "dec" else rng.choice([0.5, 0.25, 0.05, 0.2, 1 / 3.0, 0.02])
+            t = np.arange(n) / sr
+            if rng.random() < 0.6:
+                t = np.sort(t + np.array([rng.uniform(-0.1, 0.1) / sr for _ in range(n)]))
+            if rng.random() < 0.3:
+                t = np.delete(t, rng.randrange(1, n - 1))
+        if len(t) >= 3:
+            cases.append(np.diff(t))
+    rep = drv.ask(["srq " + _qs(d) for d in cases])
+    for d, r in zip(cases, rep):
+        with warnings.catch_warnings():
+            _quiet()
+            try:
+                with np.errstate(all="ignore"):
+                    sr, st = dsp._sr_calcs(d, "auto", False)
+                impl = list(st) + [sr]
+            except ValueError:
+                impl = "raises"
+        if impl == "raises" or r == "raises":
+            ctx.case(("srq", tuple(d.tolist())), nontrivial=False, branch="sr-calcs:raises")
+            if impl != r:
+                ctx.disagree("sr-calcs", {"difft": d.tolist()}, impl, r)
+            continue
+        v = r.split()
+        st_m = {"max": float("inf") if v[0] == "inf" else Fraction(v[0]), "min": Fraction(v[1]), "ave": Fraction(v[2]), "mode": Fraction(v[3]),
+                "pct": Fraction(v[4]), "dsr": Fraction(v[5]), "bymode": v[6] == "1", "defsr": Fraction(v[7])}
+        want = [float(st_m[k]) for k in ("max", "min", "ave", "mode", "pct", "defsr")]
+        br = "sr-calcs:" + ("mode" if st_m["bymode"] else "average") + (":dsr5" if st_m["dsr"] == 5 else ":slow")
+        ctx.case(("srq", tuple(d.tolist())), nontrivial=True, branch=br)
+        if v[0] == "inf":
+            ctx.count("branch:sr-calcs-equal-times")
+        if not np.allclose(impl, want, rtol=1e-9, atol=0):
+            if _sr_near_tie(d, st_m):
+                ctx.skip("_sr_calcs: a rounding or comparison within 1e-9 of a tie")
+            else:
+                ctx.disagree("sr-calcs", {"difft": d.tolist()}, impl, want)
+    # _del_loners ----------------------------------------------------------------------------------------
+    lc = []
+    for _ in range(ctx.pick(600, 5000)):
+        ln = rng.randint(3, 40)
+        dens = rng.choice([0.1, 0.2, 0.4])
+        fl = [rng.random() < dens for _ in range(ln)]
+        lc.append((fl, rng.choice([3, 5, 9, 15, 1, 2, 40]), 3))
+    rep = drv.ask(["dlo %d %d | %s" % (n, nz, " ".join("1" if b else "0" for b in fl)) for fl, n, nz in lc])
+    for (fl, n, nz), r in zip(lc, rep):
+        a = np.array(fl, dtype=bool)
+        dsp._del_loners(a, n, nz)
+        got = " ".join("1" if b else "0" for b in a)
+        filled = int(a.sum()) > sum(fl)
+        ctx.case(("dlo", tuple(fl), n), nontrivial=filled, branch="del-loners:" + ("filled" if filled else "unchanged"))
+        if got != r:
+            ctx.disagree("del-loners", {"flags": [int(b) for b in fl], "n": n, "nz": nz}, got, r)
+    # exclusive_sgfilter / despike / despike_diff ----------------------------------------------------------
+    dc = []
+    for _ in range(ctx.pick(350, 2500)):
+        exact = rng.random() < 0.5
+        n = rng.choice([3, 5, 9] if exact else [3, 5, 9, 4, 7, 15])
+        ln = rng.randint(max(6, n + 2), 36)
+        x = _gen_spiky(rng, ln, exact)
+        xp = rng.choice(["f", "f", "m", "k0", "k1", "k%d" % (n - 1), "l"] + ([] if exact else ["n"]))
+        tv = rng.choice([None, 4.0, 2.0, 0.0, 8.0, 3.0, 5.0]) if not exact else rng.choice([4.0, 2.0, 8.0, 3.0, 5.0, 16.0, 0.0])
+        dc.append({"x": x, "n": n, "xp": xp, "tv": tv, "ts": float(rng.choice([2, 0, 1])), "sigma": rng.choice([8, 2, 3, 1]),
+                   "maxiter": rng.choice([-1, -1, 1, 2, 3, 0]), "exact": exact})
+    # the documentation examples
+    dc.append({"x": [1.0, 1, 1, 1, 5, 5, 1, 1, 1, 1], "n": 5, "xp": "f", "tv": None, "ts": 2.0, "sigma": 8, "maxiter": -1, "exact": False})
+    dc.append({"x": [1.0, 1, 1, 1, 5, 5, 1, 1, 1, 1], "n": 5, "xp": "m", "tv": None, "ts": 2.0, "sigma": 8, "maxiter": -1, "exact": False})
+    dc.append({"x": [2.0, 2, 2, 2, 5, 2, 2, 2, 2, 7, 2, 2, 2, 2, 2], "n": 5, "xp": "f", "tv": 4.0, "ts": 2.0, "sigma": 8, "maxiter": -1, "exact": True})
+    dc.append({"x": [2.0, 2, 2, 2, 6, 2, 2, 2, 2, 7, 2, 2, 2, 2, 2], "n": 5, "xp": "f", "tv": 4.0, "ts": 2.0, "sigma": 8, "maxiter": -1, "exact": True})
+    req = []
+    for c in dc:
+        for fnm in ("despike", "despike_diff"):
+            for eps in (0, _EPS, -_EPS):
+                req.append(_despike_requests(fnm, c["n"], c["sigma"], c["maxiter"], c["ts"], c["tv"], c["xp"], c["x"], eps))
+        req.append("sgf %d %s | %s" % (c["n"], c["xp"], _qs(c["x"])))
+    rep = drv.ask(req)
+    for k, c in enumerate(dc):
+        x = np.array(c["x"], dtype=float)
+        rs = rep[7 * k:7 * k + 7]
+        # the moving average itself
+        st, d = _guarded(lambda: dsp.exclusive_sgfilter(x.copy(), c["n"], exclude_point=_xp_py(c["xp"])))
+        if st == "ok" and rs[6] not in ("raises", "bad-op"):
+            md = np.array([float(v) for v in _unq(rs[6])])
+            ctx.case(("sgf", tuple(c["x"]), c["n"], c["xp"]), nontrivial=True, branch="sgfilter:" + (c["xp"] if c["xp"][0] != "k" else "index"))
+            if not _close(d, md, max(1.0, float(np.abs(x).max()))):
+                ctx.disagree("exclusive-sgfilter", {kk: c[kk] for kk in ("x", "n", "xp")}, np.asarray(d).tolist(), md.tolist())
+        elif (st == "ok") != (rs[6] not in ("raises", "bad-op")):
+            ctx.disagree("exclusive-sgfilter", {kk: c[kk] for kk in ("x", "n", "xp")}, st, rs[6])
+        for j, (fnm, fn) in enumerate((("despike", dsp.despike), ("despike_diff", dsp.despike_diff))):
+            nom, up, dn = rs[3 * j:3 * j + 3]
+
+            def call():
+                with warnings.catch_warnings():
+                    _quiet()
+                    with np.errstate(all="ignore"):
+                        return fn(x.copy(), c["n"], sigma=c["sigma"], maxiter=c["maxiter"], threshold_sigma=c["ts"], threshold_value=c["tv"],
+                                  exclude_point=_xp_py(c["xp"]))
+
+            st, s = _guarded(call, 2)
+            inp = dict(c, routine=fnm)
+            if st == "timeout":
+                ctx.count("despike:does-not-terminate")
+                if nom != "raises":
+                    ctx.disagree(fnm + "-termination", inp, "no result within 2 s", nom)
+                else:
+                    ctx.skip("despike: does not terminate on this record (the model's fuel runs out as well)")
+                continue
+            if st == "error" or nom in ("raises", "bad-op"):
+                ctx.case((fnm, json.dumps(c, sort_keys=True)), nontrivial=False, branch=fnm + ":raises")
+                if not (st == "error" and nom == "raises"):
+                    ctx.disagree(fnm + "-raises", inp, st, nom)
+                continue
+            got = "%s|%d" % (" ".join("1" if b else "0" for b in s.pv), s.niter)
+            tie = not (nom == up == dn)
+            ctx.case((fnm, json.dumps(c, sort_keys=True)), nontrivial="1" in nom, branch="%s:%s" % (fnm, {"f": "first", "l": "last", "m": "gen", "n": "gen"}.get(
+                c["xp"], "first" if c["xp"] == "k0" else "last" if c["xp"] == "k%d" % (c["n"] - 1) else "gen")))
+            if tie and not c["exact"]:
+                ctx.skip("despike: a decision within 1e-9 of its threshold")
+                continue
+            if tie:
+                ctx.count("branch:despike-exact-tie")
+            if c["maxiter"] > 0 and s.niter == c["maxiter"]:
+                ctx.count("branch:despike-maxiter-reached")
+            if got != nom:
+                if not c["exact"] and ((c["tv"] is None and c["ts"] == 0) or (c["tv"] is not None and c["tv"] <= 0)):
+                    # no positive threshold and a window that is not 2^k + 1 points: on a flat stretch the code compares rounding
+                    # noise with rounding noise (exactly: 0 > 0)
+                    ctx.skip("despike: no positive threshold, statistics not exact - flat windows are decided by rounding noise")
+                    continue
+                ctx.disagree(fnm, inp, got, nom)
+            elif not np.array_equal(np.asarray(s.x), x[~np.asarray(s.pv)]):
+                ctx.disagree(fnm + "-returned-signal", inp, np.asarray(s.x).tolist(), x[~np.asarray(s.pv)].tolist())
+
+
+# ----- psdmod's row maximum, resample's storage types ---------------------------------------------------------
+
+def _corr_psdmod_dtypes(ctx, drv):
+    from pyyeti import dsp, psd
+
+    rng = ctx.rng
+    cases = []
+    req = []
+    for _ in range(ctx.pick(3, 12)):
+        sig = np.random.default_rng(rng.randint(0, 10 ** 6)).normal(size=rng.choice([1200, 2000]))
+        sr, nper, ts_ = 400.0, rng.choice([50, 100]), rng.choice([0.5, 1.0])
+        f, p, pmap, t = psd.psdmod(sig, sr, nperseg=nper, timeslice=ts_, tsoverlap=0.5, getmap=True)
+        cases.append((p, pmap))
+        req.append("pmx " + " ; ".join(_bits(row) for row in pmap))
+    names = ["int16", "int32", "int64", "uint8", "bool", "list", "float32", "float64"]
+    req += ["rdt " + ("float32" if nm == "float32" else "float64" if nm == "float64" else "int") for nm in names]
+    rep = drv.ask(req)
+    for (p, pmap), r in zip(cases, rep):
+        ctx.case(("pmx", pmap.shape, float(p[0])), nontrivial=pmap.shape[1] > 1, branch="psdmod:row-maximum")
+        if r in ("raises", "bad-op") or not np.array_equal(_unbits(r), p):
+            ctx.disagree("psdmod-row-maximum", {"shape": list(pmap.shape)}, np.asarray(p).tolist()[:6], r[:80])
+    nprng = ctx.np_rng(31)
+    for nm, r in zip(names, rep[len(cases):]):
+        m_mean, m_buf, m_out = r.split()
+        nums = nprng.integers(0, 2 if nm == "bool" else 200, size=12)
+        typed = [int(v) for v in nums] if nm == "list" else nums.astype(getattr(np, "bool_" if nm == "bool" else nm))
+        mean_t = str(np.mean(np.atleast_1d(typed), axis=-1, keepdims=True).dtype)
+        ok = True
+        for pq in ((3, 1), (1, 2), (3, 2), (1, 1)):
+            out, fir = dsp.resample(typed, pq[0], pq[1], pts=3, getfir=True)
+            ok = ok and str(out.dtype) == m_out and str(fir.dtype) == "float64"
+            ref = dsp.resample(nums.astype(float), pq[0], pq[1], pts=3)
+            ok = ok and np.allclose(np.asarray(out, dtype=float), ref, rtol=0, atol=1e-4 if nm == "float32" else 1e-9)
+        ctx.case(("rdt", nm), nontrivial=nm != "float64", branch="resample-storage:" + ("int" if m_mean == "float64" and nm not in ("float64",) else nm))
+        if not ok or mean_t != m_mean or m_buf != "float64":
+            ctx.disagree("resample-storage-types", {"dtype": nm}, {"mean": mean_t}, {"mean": m_mean, "buffer": m_buf, "out": m_out})
+
+
 # ----- fixtime's time base -----------------------------------------------------------------
 
 def _gen_told_for_tnew(rng):
@@ -1350,6 +2145,9 @@ def correspondence(ctx):
     drv = ctx.driver("C19")
     _corr_index_rules(ctx, drv)
     _corr_fixtime(ctx, drv)
+    _corr_fixfull(ctx, drv)
+    _corr_helpers(ctx, drv)
+    _corr_psdmod_dtypes(ctx, drv)
     _corr_tnew(ctx, drv)
     _corr_resample(ctx, drv)
     _corr_psd(ctx, drv)
@@ -1357,11 +2155,24 @@ def correspondence(ctx):
     _corr_rescale(ctx, drv)
     _corr_oct(ctx, drv)
     ctx.exhaustive = False
+    if ctx.disagreements:
+        return      # already broken: a disagreement can keep a case from reaching the place where its branch is counted
     ctx.require_branches(([
         "branch:edges-nearlin-below-tol", "branch:edges-nearlin-above-tol", "branch:edges-get-fl-fu-linear",
         "branch:edges-get-fl-fu-log", "branch:edges-input-scale-linear", "branch:edges-input-scale-log",
         "branch:edges-exact-rational", "edges:exact", "edges:below-tol", "edges:above-tol",
     ] if have_edges else []) + [
+        "fixtime-full:auto:nospikes:nobase", "fixtime-full:auto:spikes:base", "fixtime-full:sr:spikes:nobase", "fixtime-full:sr:nospikes:base",
+        "fixtime-full:only-dropouts", "fixtime-full:raises", "psdmod:row-maximum", "resample-storage:int", "resample-storage:float32",
+        "branch:fixtime-auto-average", "branch:fixtime-auto-mode", "branch:fixtime-auto-rate-differs-from-nominal",
+        "branch:fixtime-auto-slow-resolution", "branch:fixtime-base", "branch:fixtime-delspikes-despike",
+        "branch:fixtime-delspikes-despike_diff", "branch:fixtime-delspikes-simple", "branch:fixtime-dropval-given",
+        "branch:fixtime-dropval-not-finite", "branch:fixtime-dt-size-warning", "branch:fixtime-full-exact-time-base",
+        "branch:fixtime-loners-filled", "branch:fixtime-spikes-removed", "branch:fixtime-time-exactly-3-sigma",
+        "branch:despike-exact-tie", "branch:despike-maxiter-reached", "branch:sr-calcs-equal-times",
+        "del-loners:filled", "del-loners:unchanged", "despike:first", "despike:gen", "despike:last", "despike_diff:first",
+        "despike_diff:last", "despike_diff:raises", "sgfilter:f", "sgfilter:m", "sgfilter:l", "sgfilter:n", "sgfilter:index",
+        "sr-calcs:average:dsr5", "sr-calcs:average:slow", "sr-calcs:mode:dsr5", "sr-calcs:mode:slow",
         "branch:tnew-no-align", "branch:tnew-align-length-mismatch", "branch:tnew-align-mean", "branch:tnew-round-half-tie",
         "branch:tnew-exact-compare", "branch:tnew-shifted", "branch:fixtime-tnew-end-to-end",
         "branch:fixtime-outlier-time", "branch:fixtime-dropout-and-outlier-time", "branch:fixtime-dropval-dropout",
@@ -1978,6 +2789,247 @@ def _or_index_private(ctx, told, tnew, nb):
     ctx.count("oracle:index-rules")
 
 
+def _gen_auto_record(rng):
+    """a record in which at least 92 % of the steps are exactly 1/r and the rest are long gaps"""
+    r = rng.choice([5, 10, 20, 50, 1, 2, 4, 0.5])
+    n = rng.randint(60, 160)
+    steps = [1.0 / r] * n
+    for i in rng.sample(range(n), rng.randint(max(1, n // 20), max(1, (8 * n) // 100))):
+        steps[i] = rng.choice([30, 45, 60]) / r
+    return {"rate": r, "steps": steps, "t0": float(rng.randint(-20, 20)), "hold": rng.random() < 0.5}
+
+
+def _or_fix_auto(ctx, c):
+    """sr='auto': when more than 90 % of the time steps are one and the same 1/r the rate chosen is the most frequent
+    rate to the resolution of the count (documented: at most 5 samples/s; the resolution is never coarser than the
+    slowest rate present, which is below r): |sr - r| <= min(2.5, r/2 + 0.05) - not the average rate, which long gaps
+    pull far below r"""
+    from pyyeti import dsp
+
+    t = c["t0"] + np.concatenate(([0.0], np.cumsum(c["steps"])))
+    y = np.arange(len(t), dtype=float)
+    with warnings.catch_warnings():
+        _quiet()
+        (tn, yn), info = dsp.fixtime((t, y), "auto", hold_previous_value=c["hold"], getall=True, verbose=False)
+    share = sum(1 for s_ in c["steps"] if s_ == 1.0 / c["rate"]) / len(c["steps"])
+    if share <= 0.905 or len(tn) < 2:
+        return
+    # the count works to a resolution set by the SLOWEST rate present (5, or that rate rounded to 0.1): when r sits half-way
+    # between two multiples of it, rounding noise of 1/diff(t) splits the count between the two - not claimed
+    slow = 1.0 / max(c["steps"])
+    res = 5.0 if slow > 5 else round(10 * max(slow, 0.1)) / 10
+    x = c["rate"] / res
+    if abs((x - math.floor(x)) - 0.5) < 0.05:
+        ctx.count("oracle:fixtime-auto-rate-between-two-count-bins")
+        return
+    step = float(np.mean(np.diff(tn)))
+    lim = min(2.5, c["rate"] / 2 + 0.05) * (1 + 1e-9)
+    if not abs(1.0 / step - c["rate"]) <= lim:
+        ctx.fail("fixtime-auto-rate-not-most-frequent", "fixtime(sr='auto') does not choose (to the resolution of its count) the sample rate that more "
+                 "than 90 % of the time steps have", c, {"sr": 1.0 / step, "sr_stats": [float(v) for v in info.sr_stats]},
+                 {"sr": c["rate"], "within": lim})
+    ctx.count("oracle:fixtime-auto")
+
+
+def _or_fix_options(ctx, c):
+    """`base`, `dropval`, despiking bookkeeping of fixtime on the public API"""
+    from pyyeti import dsp
+
+    st, r = _run_fixfull(c)
+    if st != "ok" or r["early"]:
+        return
+    t_, y_, _sv = _sorted_record(c)
+    pos = np.arange(len(t_)) if _sv is None else np.asarray(_sv)
+    inp = {k: c[k] for k in c if k not in ("full",)}
+    # every bookkeeping vector is made of record positions; alldrops contains the others
+    ad = set(r["alldrops"])
+    parts = set(r["dropouts"] or []) | set(r["spikes"] or []) | (set(r["outtimes"]) if c["delouttimes"] else set())
+    if not parts <= ad or not ad <= set(range(len(t_))):
+        ctx.fail("fixtime-alldrops-not-a-superset", "fixinfo.alldrops.alldrops does not contain dropouts, spikes and the deleted outlier times",
+                 inp, sorted(ad)[:20], sorted(parts)[:20])
+        return
+    # dropval: exactly the samples within 1 % of it (or nan/inf) are drop-outs
+    if c["deldrops"] and not c["delspikes"]:
+        dv = _dropval_of(c)
+        yy = _yarr(c)
+        want = sorted(int(i) for i in np.nonzero(~np.isfinite(yy) | ((np.abs(yy - dv) < abs(dv) / 100) if math.isfinite(dv) else False))[0])
+        near = math.isfinite(dv) and dv != 0 and np.any(np.abs(np.abs(yy[np.isfinite(yy)] - dv) - abs(dv) / 100) < 1e-9 * abs(dv))
+        if r["dropouts"] != want and not near:
+            ctx.fail("fixtime-dropval", "the drop-outs are not exactly the nan/inf samples and the samples within 1 % of `dropval`", inp, r["dropouts"], want)
+            return
+    # the samples returned are taken from what was not deleted
+    kept_vals = _yarr(c)[sorted(set(range(len(t_))) - ad)]
+    fin = r["yn"][np.isfinite(r["yn"])]
+    if len(kept_vals) and not np.all(np.isin(fin, kept_vals)):
+        ctx.fail("fixtime-returns-deleted-sample", "fixtime returns a sample that fixinfo.alldrops lists as deleted", inp,
+                 ["%r" % v for v in fin[~np.isin(fin, kept_vals)][:5]], "a kept sample")
+        return
+    # base: same samples, time base moved by at most half a step onto base + k/sr
+    if c["base"] is not None and len(r["tn"]) > 1:
+        c0 = dict(c, base=None)
+        st0, r0 = _run_fixfull(c0)
+        if st0 == "ok" and not r0["early"] and len(r0["tn"]) == len(r["tn"]):
+            dt = float(np.mean(np.diff(r0["tn"])))
+            sh = r["tn"] - r0["tn"]
+            k = (c["base"] - r["tn"][0]) / dt
+            bad = (not np.array_equal(r["yn"], r0["yn"], equal_nan=True) or np.ptp(sh) > 1e-9 * dt + 1e-12 * (1 + abs(c["base"]))
+                   or abs(sh[0]) > dt / 2 * (1 + 1e-9) + 1e-12 * (1 + abs(c["base"])) or abs(k - round(k)) > 1e-6)
+            if bad:
+                ctx.fail("fixtime-base", "fixtime(base=b): the samples differ from base=None, or the time base is not moved by at most half a step "
+                         "onto b + k/sr", inp, {"shift": float(sh[0]), "k": float(k)}, {"abs(shift) <=": dt / 2, "k": "integer"})
+                return
+            ctx.count("oracle:fixtime-base")
+    ctx.count("oracle:fixtime-options")
+
+
+def _or_fix_fixed(ctx):
+    """fixed inputs: a time exactly 3 sigma from the mean stays; fixing an already-fixed record changes nothing"""
+    from pyyeti import dsp
+
+    for tt in ([3, 16, 18, 19, 33, 39, 43, 45, 49, 52, 57, 58, 166], [14, 28, 34, 35, 36, 40, 44, 51, 54, 55, 56, 165]):
+        t = np.array(tt, dtype=float)
+        with warnings.catch_warnings():
+            _quiet()
+            (tn, yn), info = dsp.fixtime((t, np.arange(len(t), dtype=float)), 1, getall=True, verbose=False)
+        mn, sg = Fraction(sum(tt), len(tt)), None
+        var9 = 9 * sum((Fraction(x) - mn) ** 2 for x in tt) / (len(tt) - 1)
+        assert (Fraction(tt[-1]) - mn) ** 2 == var9
+        if len(info.alldrops.outtimes) != 0 or tn[-1] != t[-1]:
+            ctx.fail("fixtime-outlier-time-exactly-3-sigma", "a time exactly 3 standard deviations from the mean (documented: MORE than 3) is treated as an outlier",
+                     {"t": tt}, [int(i) for i in info.alldrops.outtimes], [])
+    rng = ctx.rng
+    for _ in range(ctx.pick(40, 300)):
+        c = _gen_fixtime(rng)
+        if c["hold"] and c["tol"] >= 1.0:
+            continue
+        r1 = _run_fixtime(c)
+        if isinstance(r1[0], str) or r1[2] is None or len(r1[0]) < 2 or not np.isfinite(r1[1]).all():
+            continue
+        tn, yn = r1[0], r1[1]
+        if not np.all(np.diff(tn) == 1.0 / c["sr"]):
+            continue        # float time base not exactly uniform (shifted by a non-dyadic mean)
+        c2 = dict(c, t=tn.tolist(), y=["%r" % float(v) for v in yn])
+        r2 = _run_fixtime(c2)
+        if isinstance(r2[0], str):
+            continue
+        if not (np.array_equal(r2[0], tn) and np.array_equal(r2[1], yn)):
+            ctx.fail("fixtime-not-idempotent", "fixing an already-fixed record changes it", c, {"t": r2[0].tolist()[:8], "y": r2[1].tolist()[:8]},
+                     {"t": tn.tolist()[:8], "y": yn.tolist()[:8]})
+            return
+        ctx.count("oracle:fixtime-idempotent")
+
+
+def _or_despike(ctx, c):
+    """the despikers on the API: the returned signal is the input without the flagged points; a signal in which nothing
+    is flagged comes back unchanged and despiking it again changes nothing"""
+    from pyyeti import dsp
+
+    x = np.array(c["x"], dtype=float)
+    for fnm, fn in (("despike", dsp.despike), ("despike_diff", dsp.despike_diff)):
+        if fnm == "despike_diff" and c["xp"] not in ("f", "l", "k0"):
+            continue
+        if c["xp"] in ("l",) or c["xp"] == "k%d" % (c["n"] - 1):
+            continue    # exclude_point='last' does not terminate on some records (reported separately)
+
+        def call(v):
+            with warnings.catch_warnings():
+                _quiet()
+                with np.errstate(all="ignore"):
+                    return fn(v.copy(), c["n"], sigma=c["sigma"], maxiter=c["maxiter"], threshold_sigma=c["ts"], threshold_value=c["tv"],
+                              exclude_point=_xp_py(c["xp"]))
+
+        st, s1 = _guarded(lambda: call(x), 2)
+        if st != "ok":
+            continue
+        pv = np.asarray(s1.pv, dtype=bool)
+        if len(pv) != len(x) or not np.array_equal(np.asarray(s1.x), x[~pv]):
+            ctx.fail(fnm + "-returned-signal", "%s does not return the input without exactly the flagged points" % fnm, dict(c, routine=fnm),
+                     np.asarray(s1.x).tolist()[:12], x[~pv].tolist()[:12])
+            return
+        if not pv.any():
+            if s1.niter != 1:
+                ctx.fail(fnm + "-niter", "%s flags nothing but reports more than one iteration" % fnm, dict(c, routine=fnm), int(s1.niter), 1)
+            continue
+    ctx.count("oracle:despike")
+
+
+def _or_despike_limits(ctx, c):
+    """despike's documented limits: after ONE iteration (`maxiter=1`) `hilim`/`lolim` are `mean +- max(sigma*std, threshold)`;
+    a point is an outlier when it lies BEYOND them.  exclude_point='middle' (all points tested at once): flagged <=> outside
+    [lolim, hilim]; 'first' (the last outlier and the run before it): the last flagged point is outside its limits, every later
+    point is inside or on them"""
+    from pyyeti import dsp
+
+    x = np.array(c["x"], dtype=float)
+    for xp in ("middle", "first"):
+        with warnings.catch_warnings():
+            _quiet()
+            with np.errstate(all="ignore"):
+                s = dsp.despike(x.copy(), c["n"], sigma=c["sigma"], maxiter=1, threshold_value=c["tv"], exclude_point=xp)
+        pv = np.asarray(s.pv, dtype=bool)
+        out = (x > s.hilim) | (x < s.lolim)
+        if xp == "middle":
+            bad = not np.array_equal(pv, out)
+        else:
+            j = int(np.nonzero(pv)[0][-1]) if pv.any() else -1
+            bad = (j >= 0 and not out[j]) or bool(out[j + 1:].any())
+        if bad:
+            tie = bool(np.any((x == s.hilim) | (x == s.lolim)))
+            ctx.fail("despike-limit" + ("-tie" if tie else ""), "despike(maxiter=1, exclude_point=%r): the flagged points are not the points beyond hilim/lolim"
+                     % xp + (" (a point exactly ON a limit is not beyond it)" if tie else ""), dict(c, routine="despike-limits", xp_name=xp),
+                     {"pv": pv.astype(int).tolist(), "hilim": np.asarray(s.hilim).tolist()[:12]}, {"outside": out.astype(int).tolist()})
+            return
+    ctx.count("oracle:despike-limits")
+
+
+def _or_rescale_const(ctx, c):
+    """a constant PSD comes out constant (inside bands; with extendends in every band that overlaps the input)"""
+    from pyyeti import psd
+
+    F, freq = np.array(c["F"]), np.array(c["freq"])
+    P = np.full(len(F), 2.5)
+    try:
+        with np.errstate(all="ignore"):
+            po, fo, msv, ms = psd.rescale(P, F, freq=freq, extendends=True)
+    except (ValueError, IndexError):
+        return
+    d = np.diff(F)
+    FLin, FUin = (F - d[0] / 2, F + d[0] / 2) if np.all(d == d[0]) else _edges_ref(F)
+    oL, oU = _edges_ref(freq)
+    sel = [i for i in range(len(freq)) if freq[i] in set(np.asarray(fo).tolist())]
+    if len(sel) != len(fo):
+        return
+    for k, i in enumerate(sel):
+        cov = min(oU[i], FUin[-1]) - max(oL[i], FLin[0])
+        if cov <= 1e-6 * (oU[i] - oL[i]):
+            continue
+        if k not in (0, len(sel) - 1) and not (oL[i] >= FLin[0] and oU[i] <= FUin[-1]):
+            continue
+        if not abs(po[k] - 2.5) <= 1e-9 * 2.5 * max(1.0, (oU[i] - oL[i]) / cov):
+            ctx.fail("rescale-constant-psd", "a constant PSD does not come out constant after rescale (extendends=True)", {kk: c[kk] for kk in ("F", "freq")},
+                     float(po[k]), 2.5)
+            return
+    ctx.count("oracle:rescale-constant")
+
+
+def _or_resample_gcd(ctx, inp):
+    """a common factor of p and q changes nothing; the result is float64 whatever the storage of the data"""
+    from pyyeti import dsp
+
+    data = np.random.default_rng(inp["dseed"]).normal(size=inp["n"])
+    a = dsp.resample(data, inp["p"], inp["q"], pts=inp["pts"])
+    for k in (2, 3):
+        b = dsp.resample(data, k * inp["p"], k * inp["q"], pts=inp["pts"])
+        if a.shape != b.shape or not np.array_equal(a, b):
+            ctx.fail("resample-common-factor", "resample(data, k*p, k*q) differs from resample(data, p, q)", dict(inp, k=k), b.tolist()[:6], a.tolist()[:6])
+            return
+    ints = (data * 50).astype(np.int32)
+    if dsp.resample(ints, inp["p"], inp["q"], pts=inp["pts"]).dtype != np.float64:
+        ctx.fail("resample-dtype-integer", "resampling integer data does not return float64", dict(inp, dtype="int32"),
+                 str(dsp.resample(ints, inp["p"], inp["q"], pts=inp["pts"]).dtype), "float64")
+    ctx.count("oracle:resample-gcd")
+
+
 def _hint_inputs(hints):
     out = {"fixtime": [], "spec": [], "rescale": [], "oct": []}
     for h in hints[:200]:
@@ -2020,6 +3072,32 @@ def search(ctx, hints):
         ctx.count("oracle:fixtime")
         if len(ctx.failures) > 12:
             return
+    for hnt in hints[:60]:
+        i = hnt.get("input")
+        if isinstance(i, dict) and i.get("full"):
+            _or_fix_options(ctx, i)
+            if i.get("sr_opt") == "auto" and "t" in i:
+                tt = np.sort(np.array(i["t"], dtype=float))
+                if len(tt) > 2:
+                    _or_fix_auto(ctx, {"rate": i["sr"], "steps": np.diff(tt).tolist(), "t0": float(tt[0]), "hold": i["hold"]})
+    _or_fix_fixed(ctx)
+    for _ in range(ctx.pick(60, 500)):
+        _or_fix_auto(ctx, _gen_auto_record(rng))
+    for _ in range(ctx.pick(250, 2000)):
+        _or_fix_options(ctx, _gen_fixfull(rng))
+        if len(ctx.failures) > 12:
+            return
+    for _ in range(ctx.pick(150, 1200)):
+        exact = rng.random() < 0.5
+        n_ = rng.choice([3, 5, 9] if exact else [3, 5, 9, 4, 7, 15])
+        _or_despike(ctx, {"x": _gen_spiky(rng, rng.randint(max(6, n_ + 2), 36), exact), "n": n_, "xp": rng.choice(["f", "f", "m", "k0", "k1"]),
+                          "tv": rng.choice([None, 4.0, 2.0, 8.0]), "ts": float(rng.choice([2, 0, 1])), "sigma": rng.choice([8, 2, 3]),
+                          "maxiter": rng.choice([-1, -1, 1, 2])})
+    _or_despike_limits(ctx, {"x": [2.0, 2, 2, 2, 6, 2, 2, 2, 2, 7, 2, 2, 2, 2, 2], "n": 5, "sigma": 8, "tv": 4.0})
+    for _ in range(ctx.pick(150, 1000)):
+        n_ = rng.choice([3, 5, 9])
+        _or_despike_limits(ctx, {"x": _gen_spiky(rng, rng.randint(n_ + 3, 30), True), "n": n_, "sigma": rng.choice([8, 2, 1]),
+                                 "tv": float(rng.choice([4, 2, 8, 3, 5, 16]))})
     for _ in range(ctx.pick(800, 6000)):
         told = _gen_told(rng, strict=True)
         _or_index_private(ctx, told, _gen_tnew(rng, told), nb)
@@ -2039,6 +3117,8 @@ def search(ctx, hints):
         rs.append({"P": [1.0] * 41, "F": doc_F, "freq": [0.0, 5.0, 10.0], "ext": ext, "kin": "lin", "kout": "lin"})
         rs.append({"P": [float(1 + (i % 5)) for i in range(41)], "F": doc_F, "freq": [0.5, 2.5, 4.5, 6.5], "ext": ext, "kin": "lin", "kout": "lin"})
     rs += [_gen_rescale(rng, nprng) for _ in range(ctx.pick(1200, 8000))]
+    for c in rs[:ctx.pick(300, 2000)]:
+        _or_rescale_const(ctx, c)
     for c in rs:
         _or_rescale(ctx, c)
         ctx.count("oracle:rescale")
@@ -2067,6 +3147,8 @@ def search(ctx, hints):
         _or_dtypes(ctx, {"tseed": rng.randint(0, 10 ** 6)})
     # resample ------------------------------------------------------------------------
     _or_resample(ctx, {"n": 89, "p": 3, "q": 7, "pts": 10, "dseed": 1, "offset": 0.0, "fr": 0.02})  # F32's input
+    for _ in range(ctx.pick(40, 300)):
+        _or_resample_gcd(ctx, _gen_resample(rng))
     for _ in range(ctx.pick(250, 2000)):
         _or_resample(ctx, _gen_resample(rng))
         if len(ctx.failures) > 12:
@@ -2078,7 +3160,21 @@ def replay(ctx, data):
     i = f.get("input") or {}
     fam = f.get("family", "")
     sub = type(ctx)(ctx.prop, ctx.tier, ctx.seed)
-    if "hold" in i and "t" in i:
+    if i.get("full"):
+        _or_fix_options(sub, i)
+    elif "steps" in i and "rate" in i:
+        _or_fix_auto(sub, i)
+    elif i.get("routine") == "despike-limits":
+        _or_despike_limits(sub, i)
+    elif "routine" in i and "xp" in i:
+        _or_despike(sub, i)
+    elif fam.startswith("fixtime-outlier-time-exactly") or fam == "fixtime-not-idempotent":
+        _or_fix_fixed(sub)
+    elif fam == "rescale-constant-psd":
+        _or_rescale_const(sub, i)
+    elif fam in ("resample-common-factor",) or (fam == "resample-dtype-integer" and "k" not in i and i.get("dtype") == "int32"):
+        _or_resample_gcd(sub, i)
+    elif "hold" in i and "t" in i:
         _or_fixtime(sub, i)
     elif "spec32" in i:
         _or_spec_float32(sub, i["spec32"])
